@@ -122,6 +122,14 @@ Theorem C02_source_failure_layer_is_model : forall lib (rg : RG) (rp : RP) g s,
 Proof. exact gen_run_failure_step_group_is_model. Qed.
 Print Assumptions C02_source_failure_layer_is_model.
 
+(** the call layer: [Step.invoke_step] read from the source (Call caught, the called groups run on
+    the current runner, instructions pass, errors become HandledError, counters restored in
+    [finally]) is the model's [invoke] *)
+Theorem C02_source_invoke_is_model : forall (rg : RG) (rp : RP) sp k s,
+  gen_invoke_step (run_body rp sp) rg (reset_prim sp k) s = invoke rg rp sp k s.
+Proof. exact gen_invoke_step_is_model. Qed.
+Print Assumptions C02_source_invoke_is_model.
+
 (** the three stops are Stops and not control-of-flow instructions, Call / Jump the reverse, and
     HandledError neither — in the class table read from pypyr/errors.py *)
 Theorem C02_source_class_table :
